@@ -18,7 +18,27 @@ def make_bins(shape):
     return out
 
 
-def make_datasets(shape, patterns, names=None):
+STORAGES = ('native', 'big-endian', 'fortran', 'strided', 'float32')
+
+
+def store(arr, storage):
+    """The same numbers in another memory representation (byte order, layout, stride, width)."""
+    if storage in (None, 'native') or np.ndim(arr) == 0:
+        return arr
+    if storage == 'big-endian':
+        return arr.astype(arr.dtype.newbyteorder('>'))
+    if storage == 'fortran':
+        return np.asfortranarray(arr)
+    if storage == 'strided':
+        wide = np.zeros(arr.shape[:-1] + (2 * arr.shape[-1],), dtype=arr.dtype)
+        wide[..., ::2] = arr
+        return wide[..., ::2]
+    if storage == 'float32':
+        return arr.astype(np.float32) if arr.dtype.kind == 'f' else arr
+    raise ValueError(storage)
+
+
+def make_datasets(shape, patterns, names=None, storage=None):
     """patterns: one tuple of booleans (True = this bin FAILS) per compared dataset, C order."""
     from valjean.eponine.dataset import Dataset
     ncell = int(np.prod(shape)) if shape else 1
@@ -29,7 +49,9 @@ def make_datasets(shape, patterns, names=None):
     def mk(val, err, name):
         if shape == ():
             return Dataset(np.float64(val[0]), np.float64(err[0]), name=name, what='flux')
-        return Dataset(val.reshape(shape).copy(), err.reshape(shape).copy(), bins=bins, name=name, what='flux')
+        sbins = bins if storage in (None, 'native') else OrderedDict((k, store(v.copy(), storage)) for k, v in bins.items())
+        return Dataset(store(val.reshape(shape).copy(), storage), store(err.reshape(shape).copy(), storage), bins=sbins,
+                       name=name, what='flux')
 
     names = names or ['ref'] + [f'ds{k}' for k in range(len(patterns))]
     # special cells: 'zeroerr' = both errors zero and values differ (Student t = +-inf), 'inf' / 'nan' = such a value on the compared side
@@ -51,13 +73,13 @@ def make_datasets(shape, patterns, names=None):
     return out
 
 
-def build(kind, shape=(3,), patterns=((False, True, False),), alpha=0.05, extra=None):
+def build(kind, shape=(3,), patterns=((False, True, False),), alpha=0.05, extra=None, storage=None):
     """Evaluate a test of the given kind.  Returns (test, result)."""
     from valjean.gavroche.test import TestEqual, TestApproxEqual, TestResultFailed
     from valjean.gavroche.stat_tests.student import TestStudent
     from valjean.gavroche.stat_tests.bonferroni import TestBonferroni, TestHolmBonferroni
     if kind in DATASET_KINDS:
-        dss = make_datasets(shape, patterns)
+        dss = make_datasets(shape, patterns, storage=storage)
         if kind == 'equal':
             test = TestEqual(*dss, name='t_equal', description='equal test')
         elif kind == 'approx':
@@ -117,8 +139,10 @@ def simple_result(verdict, name, labels=None):
     return TestEqual(one, two, name=name, description='d', labels=labels).evaluate()
 
 
-def build_stats_tests(verdicts_per_task):
-    """verdicts_per_task: tuple (one per task) of tuples of verdicts; None instead of a tuple = task without result."""
+def build_stats_tests(verdicts_per_task, naming='distinct'):
+    """verdicts_per_task: tuple (one per task) of tuples of verdicts; None instead of a tuple = task without result.
+    naming: 'distinct' = every test has its own name; 'same' = all tests are called 'test' (equal verdicts then mean equal tests);
+    'same-labelled' = all called 'test', each task evaluating them under its own 'day' label."""
     from valjean.gavroche.diagnostics.stats import TestStatsTests
     from valjean.cosette.task import TaskStatus
     trs = []
@@ -127,7 +151,9 @@ def build_stats_tests(verdicts_per_task):
             trs.append((f'task{k}', {'status': TaskStatus.FAILED}))
         else:
             trs.append((f'task{k}', {'status': TaskStatus.DONE,
-                                     'result': [simple_result(v, f'test{k}_{j}') for j, v in enumerate(verdicts)]}))
+                                     'result': [simple_result(v, f'test{k}_{j}' if naming == 'distinct' else 'test',
+                                                              labels={'day': f'd{k}'} if naming == 'same-labelled' else None)
+                                                for j, v in enumerate(verdicts)]}))
     test = TestStatsTests(name='t_stats_tests', description='tests', task_results=trs)
     return test, test.evaluate()
 
